@@ -67,6 +67,7 @@ class Check:
         self.notes = []
         self.uncovered = []
         self.samples = []
+        self.unexplored = []
         self.max_confirm_per_job = 3
         self.max_confirm_total = 12
         self.confirm_count = 0
@@ -83,6 +84,13 @@ class Check:
     def _triage(self, r):
         j = r.job
         if r.status in ('inconclusive', 'error'):
+            capped = ('timeout after' in r.reason or 'out of memory' in r.reason or 'was killed' in r.reason
+                      or 'left undecided by the solver' in r.reason)
+            if self.tier == 'thorough' and capped:
+                # thorough tier: a query that hit the time / memory cap is NOT explored; it is named in the
+                # evidence and on stdout, never counted as held; too many of them make the run inconclusive
+                self.unexplored.append('%s: %s' % (j.name, r.reason[:200]))
+                return
             self.inconclusive.append('%s: %s' % (j.name, r.reason))
             return
         if r.status == 'pass':
@@ -217,6 +225,7 @@ class Check:
             'uncovered_public_names': sorted(set(self.uncovered)),
             'known_findings_hit': {k: len(v) for k, v in self.known_hits.items()},
             'inconclusive': self.inconclusive[:50],
+            'unexplored_queries_cap_hit': self.unexplored[:200],
             'notes': self.notes[:50],
             'exhaustive': False,
         }
@@ -243,6 +252,10 @@ class Check:
                       % (self.pid, f.what, f.fid, len(self.known_hits[f.fid])))
             else:
                 print('note: listed finding %s did not show up in this run' % f.fid)
+        for u in self.unexplored[:40]:
+            print('UNEXPLORED (time/memory cap, thorough tier): ' + u[:300])
+        if self.unexplored and len(self.unexplored) * 5 > max(1, len(self.results)):
+            self.inconclusive.append('%d of %d queries hit the time/memory cap' % (len(self.unexplored), len(self.results)))
         rc = 0
         if self.violations:
             seen = set()
